@@ -62,12 +62,16 @@ def apply(h, steps, mode):
                 h.drop_blob(i, k)
         elif st[0] == "wipe":
             # every output is deleted (a fresh checkout): minimal mode must still give each executing command its dependency outputs
+            # mostly deleted; one time in four something of the wrong kind sits at the path instead (a directory with content where a
+            # file belongs, a file where a directory belongs): an ordinary perturbation since the repair of C06-F3.  (The kind is
+            # drawn from a generator of its own so that which paths are wiped does not depend on it.)
             rr = vlib.Rng(st[1])
+            rk = vlib.Rng(st[1] ^ 0x5C06F3)
             for i, n in enumerate(h.snap["nodes"]):
                 if n["k"] == "t":
                     for k in range(len(n["outs"])):
                         if rr.chance(2, 3):
-                            h.perturb(i, k, "delete")
+                            h.perturb(i, k, "wrong_kind" if rk.chance(1, 4) else "delete")
 
 
 def sub_multiset(xs, ys):
@@ -187,12 +191,18 @@ def run(out, tier):
         # builds that follow a cache fault: mode all has to re-execute every selected target whose outputs it cannot restore,
         # mode minimal only those an executing dependant needs -- "the same set of commands" is then demanded as
         # minimal's commands being a sub-multiset of all's (exit status and materialised bytes compared as always)
-        faulted, seen = [], False
-        for o in hm.ops:
-            if o[0] in ("D", "R"):
-                seen = True
-            elif o[0] == "B":
-                faulted.append(seen)
+        # (a blob fault is applied to the bytes found in the workspace: when mode minimal has not restored that output the fault
+        # reaches the mode-all run only, so the fault marks of BOTH runs count)
+        def fault_marks(h):
+            marks, seen = [], False
+            for o in h.ops:
+                if o[0] in ("D", "R"):
+                    seen = True
+                elif o[0] == "B":
+                    marks.append(seen)
+            return marks
+        fa, fm = fault_marks(ha), fault_marks(hm)
+        faulted = [x or y for x, y in zip(fa, fm)]
         for bi, (a, b) in enumerate(zip(ha.builds, hm.builds)):
             evals += 1
             predicted = bi < len(mm) and sorted(b["starts"]) == mm[bi]["exec"] and (b["rc"] == 0) == mm[bi]["ok"]
@@ -212,7 +222,8 @@ def run(out, tier):
     hc.finish(out, "C15", batch,
               "scripts of edits, taints and wipes of the workspace outputs (fresh checkout) with a build after each, applied identically to two "
               "runs (load_outputs=all and =minimal, separate cache roots and workspaces); compared pairwise and with Build.run_history in both "
-              "modes; non-trivial = at least two operations and two builds", oracle_evals=evals, extra={"lockstep_pairs": len(batch) // 2})
+              "modes; non-trivial = at least two operations and two builds", oracle_evals=evals,
+              extra={"lockstep_pairs": len(batch) // 2, "perturbations": hc.perturbation_histogram(batch)})
 
 
 def replay(out, path):
